@@ -514,7 +514,7 @@ def run(ctx):
                 elif l.startswith("img "):
                     cases.append(rebuild_case(l))
     kinds = ["dense", "sparse", "extreme", "runs", "planes", "zero"]
-    nimg = ctx.n(70, 2500)
+    nimg = ctx.n(110, 2500)
     for i in range(nimg):
         kind = kinds[i % len(kinds)] if i < 3 * len(kinds) else rng.choice(kinds)
         P = 12 if (i % 4 == 3) else 8
